@@ -335,8 +335,8 @@ def id_boundary_edges(F, f, owner):
     return out
 
 
-def r8_idle_boundary(ctx):
-    r = ctx.rule('C09.R8', 'TABLE', 'one idle boundary: every comparison of a stream id with next_stream_id splits at id < next (may exist) / id >= next (idle), and the actions sit on the right side')
+def r8_idle_boundary(ctx, rid='C09.R8'):
+    r = ctx.rule(rid, 'TABLE', 'one idle boundary: every comparison of a stream id with next_stream_id splits at id < next (may exist) / id >= next (idle), and the actions sit on the right side')
     F = ctx.facts
     n = 0
     for owner, side in ((P + 'recv::Recv', 'recv'), (P + 'send::Send', 'send')):
